@@ -25,7 +25,10 @@ REQUIRED = ['evaluations', 'wifi_checked', 'mecard_checked', 'vcard_checked', 'g
 TIMEOUT = {'quick': 3600, 'thorough': 21600}
 
 NASTY = [';', ':', ',', '\\', '"', '\r\n', '\n', '\r', '\\;', ';;', '\\\\', 'a;b', 'x:y', 'T:WPA;P:1', ';TEL:666', '\\', 'tail\\',
-         '\\;tail', '"quoted"', 'a,b', ' ', 'ü', '東京', '☃', '%41', '&', '=', '?', '#', '+', "'"]
+         '\\;tail', '"quoted"', 'a,b', ' ', 'ü', '東京', '☃', '%41', '&', '=', '?', '#', '+', "'",
+         # characters that are canonically equivalent to a delimiter or to a Latin-1 character (U+037E ~ ';', U+0387 ~
+         # U+00B7, KELVIN / ANGSTROM SIGN, letter + combining mark): the payload carries them as given
+         '\u037e', 'Lab\u037eH:true', '\u0387', '\u212a', '\u212b', 'Cafe\u0301', 'n\u0303']
 
 
 def nasty_text(rng, n=None):
@@ -166,8 +169,9 @@ def epc_case(rng, bad=False):
             kw.pop('reference', None)
         elif which == 'amount-window':
             # just outside the range, within half a cent of the limits
-            kw['raw_amount'] = rng.choice(['0.009', '0.0051', '0.0099', '999999999.991', '999999999.994', '999999999.9949'])
-            kw['form'] = rng.choice(['decimal', 'str'])
+            kw['raw_amount'] = rng.choice(['0.009', '0.0051', '0.0099', '999999999.991', '999999999.994', '999999999.9949', '0.006'])
+            # (as float too: the binary values of these floats are outside the range just like the decimal ones)
+            kw['form'] = rng.choice(['decimal', 'str', 'float'])
         elif which == 'amount-zero':
             kw['cents'] = 0
         elif which == 'amount-big':
@@ -472,6 +476,8 @@ EPC_ENCODINGS = ['utf-8', 'iso-8859-1', 'iso-8859-2', 'iso-8859-4', 'iso-8859-5'
 def epc_amount(kw):
     if 'raw_amount' in kw:
         d = decimal.Decimal(kw['raw_amount'])
+        if kw['form'] == 'float':
+            return float(kw['raw_amount']), d
         return (d if kw['form'] == 'decimal' else kw['raw_amount']), d
     cents = kw['cents']
     d = decimal.Decimal(cents) / 100
